@@ -83,7 +83,10 @@ Definition full_missed (c : rcase) : bool :=
 
 (* constructors for generated case files *)
 Definition mkrfile p t sp ex al ig : rfile :=
-  {| rf_path := p; rf_text := t; rf_spans := sp; rf_exists := ex; rf_allow := al; rf_ignore := ig |}.
+  {| rf_path := p; rf_text := t; rf_spans := sp; rf_exists := ex; rf_readable := ex; rf_allow := al; rf_ignore := ig |}.
+(* walked / readable given separately (hidden or git-ignored files named in a diff) *)
+Definition mkrfile' p t sp walked readable al ig : rfile :=
+  {| rf_path := p; rf_text := t; rf_spans := sp; rf_exists := walked; rf_readable := readable; rf_allow := al; rf_ignore := ig |}.
 Definition mkrcase fs d scan ext en dis tb cd : rcase :=
   {| rc_files := fs; rc_diff := d; rc_scan := scan; rc_ext := ext; rc_enabled := en; rc_disabled := dis;
      rc_tables := tb; rc_cdiff := cd |}.
